@@ -172,5 +172,33 @@ PROPS['C14'] = Prop(
     outside='more than K steps; prototype lists other than the one instantiated; ArgumentPassingIncludeEvent for heterogeneous classes; callbacks callable with several prototypes',
     assumptions=['type confusion is observable three ways: ledger of the tracked types, engine memory checks (non-pointer data used as pointer, out of bounds), wrong trace'])
 
+_FB = '%s: K=%d steps from appendFilter (symbolic verdict and symbolic rewrite of the first argument on every call) / removeFilter(handle) / appendListener / dispatch%s; arguments symbolic'
+def _fl(name, tk, k, what, extra='', **kw):
+    d = {'TK': tk, 'KK': k}
+    if 'pre' in kw: d['PRE'] = kw.pop('pre'); extra += '; %d filters installed before the free steps' % d['PRE']
+    return Run(name, 'filters.cpp', d, covers=8, bounds=_FB % (what, k, extra), **kw)
+PROPS['C12'] = Prop(
+    quick=[_fl('filter_disp_k4', 0, 4, 'EventDispatcher + MixinFilter', optional_covers=(3, 5, 6, 7)),
+           _fl('filter_disp_pre2_k3', 0, 3, 'EventDispatcher + MixinFilter', optional_covers=(3, 5, 6, 7), pre=2),
+           _fl('filter_queue_k4', 1, 4, 'EventQueue + MixinFilter', ' (direct, or enqueue + process)', optional_covers=(5, 6, 7)),
+           _fl('filter_heter_k3', 2, 3, 'HeterEventDispatcher + MixinHeterFilter', optional_covers=(2, 3, 4, 5, 6, 7)),
+           _fl('filter_gate_k3', 3, 3, 'EventDispatcher + MixinList<user mixin with mixinBeforeDispatch (symbolic verdict), MixinFilter>', optional_covers=(2, 3, 4, 5, 6)),
+           _fl('filter_plain_after_k3', 8, 3, 'EventDispatcher + MixinList<MixinFilter, user mixin without mixinBeforeDispatch>', optional_covers=(2, 3, 4, 5, 6, 7)),
+           _fl('filter_plain_before_k2', 7, 2, 'EventDispatcher + MixinList<user mixin without mixinBeforeDispatch, MixinFilter> (targeted configuration of known finding KF-C12-1)', optional_covers=(0, 1, 2, 3, 4, 5, 6, 7)),
+           Run('continue_policy', 'filters.cpp', {'TK': 4}, covers=8, optional_covers=(0, 1, 2, 3, 4, 6, 7), bounds='CallbackList<void(uint32_t&)> with canContinueInvoking(a) = a < t: 2..4 listeners adding symbolic increments, symbolic threshold t and argument'),
+           Run('conditional_functor', 'filters.cpp', {'TK': 5}, covers=8, optional_covers=(0, 1, 2, 3, 4, 5, 7), bounds='conditionalFunctor with condition (a & mask) == want, mask/want/arguments symbolic, two dispatches'),
+           Run('argument_adapter', 'filters.cpp', {'TK': 6}, covers=8, optional_covers=(0, 1, 2, 3, 4, 5, 6, 7), bounds='argumentAdapter: int64->int32 and uint32->uint16 (symbolic values), Base*->Derived* with Base at a non-zero offset, shared_ptr<Base>->shared_ptr<Derived>')],
+    thorough=[_fl('filter_disp_k5', 0, 5, 'EventDispatcher + MixinFilter', optional_covers=(3, 5, 6, 7), budget_s=1700),
+              _fl('filter_queue_k5', 1, 5, 'EventQueue + MixinFilter', ' (direct, or enqueue + process)', optional_covers=(5, 6, 7), budget_s=1700),
+              _fl('filter_heter_k4', 2, 4, 'HeterEventDispatcher + MixinHeterFilter', optional_covers=(3, 5, 6, 7), budget_s=1700),
+              _fl('filter_gate_k4', 3, 4, 'EventDispatcher + MixinList<user mixin, MixinFilter>', optional_covers=(3, 5, 6), budget_s=1700),
+              _fl('filter_plain_after_k4', 8, 4, 'EventDispatcher + MixinList<MixinFilter, user mixin without mixinBeforeDispatch>', optional_covers=(3, 5, 6, 7), budget_s=1700),
+              _fl('filter_plain_before_k2', 7, 2, 'EventDispatcher + MixinList<user mixin without mixinBeforeDispatch, MixinFilter> (targeted configuration of known finding KF-C12-1)', optional_covers=(0, 1, 2, 3, 4, 5, 6, 7)),
+              Run('continue_policy', 'filters.cpp', {'TK': 4}, covers=8, optional_covers=(0, 1, 2, 3, 4, 6, 7), bounds='as quick'),
+              Run('conditional_functor', 'filters.cpp', {'TK': 5}, covers=8, optional_covers=(0, 1, 2, 3, 4, 5, 7), bounds='as quick'),
+              Run('argument_adapter', 'filters.cpp', {'TK': 6}, covers=8, optional_covers=(0, 1, 2, 3, 4, 5, 6, 7), bounds='as quick')],
+    outside='more than K steps; filters that add/remove filters while running (CallbackList nesting rules, C02); HeterEventQueue + MixinHeterFilter (does not compile in the unmodified library: private PrototypeList alias)',
+    assumptions=['filter verdicts and rewrites are fresh symbolic values on every dispatch'])
+
 HOOK_COMMITS = []
 EBMC_PROPS = []
